@@ -112,7 +112,9 @@ pub fn random_event(rng: &mut StdRng) -> Value {
         61..=70 => { let b = batch(rng, true, 3); ev("SendOpens", 0, 0, "", "", "-", 0, false, "-", b, no_filter()) }
         71..=78 => { let b = batch(rng, false, 3); ev("SendCancels", 0, 0, "", "", "-", 0, false, "-", b, no_filter()) }
         79..=88 => { let f = random_filter(rng); ev("CancelOrders", 0, 0, "", "", "-", 0, false, "-", vec![], f) }
-        89..=98 => { let f = random_filter(rng); ev("ClosePositions", 0, 0, "", "", "-", 0, false, "-", vec![], f) }
+        89..=95 => { let f = random_filter(rng); ev("ClosePositions", 0, 0, "", "", "-", 0, false, "-", vec![], f) }
+        // the same command handled by a custom close strategy that cancels the matching instruments' resting orders first
+        96..=98 => { let f = random_filter(rng); ev("ClosePositionsCF", 0, 0, "", "", "-", 0, false, "-", vec![], f) }
         _ => ev("Shutdown", 0, 0, "", "", "-", 0, false, "-", vec![], no_filter()),
     }
 }
